@@ -18,6 +18,7 @@ import (
 type genCfg struct {
 	MaxSteps                                                   int
 	ForkPrefix                                                 bool
+	WrongFrozenPct                                             int                                          // share of inputs citing a frozen height the output does not have
 	Mix                                                        func(rt *rapid.T, nm *hx.NodeMachine) hx.NOp // optional: replaces genNodeOp
 	MinSteps                                                   int
 	AllowTruncate                                              bool
@@ -138,7 +139,13 @@ func genTxSpec(rt *rapid.T, nm *hx.NodeMachine, s *hx.MState, cfg genCfg, height
 	total := big.NewInt(0)
 	for i := 0; i < nin; i++ {
 		u := us[(start+i)%len(us)]
-		spec.Ins = append(spec.Ins, hx.InRef{Addr: from, Txid: hex.EncodeToString(u.Txid), Off: u.Off, Amount: u.Amount.String(), Frozen: u.Frozen})
+		ref := hx.InRef{Addr: from, Txid: hex.EncodeToString(u.Txid), Off: u.Off, Amount: u.Amount.String(), Frozen: u.Frozen}
+		if cfg.WrongFrozenPct > 0 && !nm.FS.Active("C01-undo-restores-cited-frozen-height") && rapid.IntRange(0, 99).Draw(rt, "wrongfrozen") < cfg.WrongFrozenPct {
+			// the spender cites another frozen height than the output has (nothing checks the citation)
+			ref.Frozen = u.Frozen + int64(rapid.SampledFrom([]int{-1, 1, 7}).Draw(rt, "frozendelta"))
+			nm.Stat["input-cites-wrong-frozen-height"]++
+		}
+		spec.Ins = append(spec.Ins, ref)
 		total.Add(total, u.Amount)
 	}
 	rest := new(big.Int).Set(total)
